@@ -16,6 +16,24 @@ func TestSweep(t *testing.T) {
 	rec := kit.NewRecorder(env, "sweep")
 	defer func() { rec.Flush(!t.Failed()) }()
 	maxK := env.Pick(6, 9)
+	// long parents: interleaved positions on both sides of 2^16 and 2^17
+	for ti, tn := range names {
+		for _, C := range []int{1, 2, 8, 3 + ti%5} {
+			for _, total := range []int{65600, 131200} {
+				K := total / C
+				c := &Case{T: tn, C: C, Kr: K, A: ti % 2, B: K, Ch: (ti + C) % C}
+				for _, p := range []int{65536, 131072} {
+					for d := -1; d <= 1; d++ {
+						if i := p/C - c.A + d; i >= 0 && i < c.B-c.A {
+							c.Idx = append(c.Idx, i)
+						}
+					}
+				}
+				c.Idx = append(c.Idx, 0, c.B-c.A-1)
+				Oracle.One(t, env, rec, "sweep", c)
+			}
+		}
+	}
 	for _, tn := range names {
 		for C := 1; C <= 8; C++ {
 			for K := 0; K <= maxK; K++ {
